@@ -530,7 +530,7 @@ def check_C02(ctx, replay=None):
     if gen is None:
         ctx.regen_failed = "regeneration failed: " + log[-2000:]
     check_core_policy(ctx, "C02", "C02.v", theorems,
-                      ["single_cond", "single_cond", "single_cond", "pair_cond"],
+                      ["single_cond", "single_cond", "single_cond", "pair_cond", "value_list"],
                       "one group / one conditional entry / one condition (and, one case in four, two or three single-condition alternatives of one syscall on the same argument with related operands): 8 operations x 6 argument indices x boundary and random 64-bit operands x both byte orders x four tables, compiled by the implementation and the extracted model (instruction-exact comparison); every program run on events whose argument is the operand, operand +-1, +-2^32, with high/low halves swapped or equal, all-ones, 0 and random, against the extracted decide (i.e. rel); non-trivial = accepted policy with events evaluated",
                       replay=replay, npol=(500, 8000), nev=(40, 80), foreign_share=0.03, gen=gen)
     # the same stream through a 32-bit build of the library (GOARCH=386 binaries run on this host): the word offsets of
@@ -576,7 +576,7 @@ def check_C03(ctx, replay=None):
                       ["C03_compiled_program_is_decide", "C03_match_is_for_own_syscall", "C03_any_satisfied_list_matches",
                        "C03_unmatched_entry_as_absent", "C03_programs_agree_without_unmatched_entry",
                        "C03_source_entry_is_the_model", "C03_source_merge_is_the_model", "C03_validated_entries_nondegenerate", "C03_nonvacuous"],
-                      ["cond", "cond", "mixed", "mixed", "mixed_long", "condlong", "altmany", "pair_cond"],
+                      ["cond", "cond", "mixed", "mixed", "mixed_long", "condlong", "altmany", "pair_cond", "value_list"],
                       "policies mixing unconditional and conditional entries (1..4 groups, repeated names merged into OR lists, related alternatives of one syscall - sub-list, longer list, same list, permuted, one operand or operation changed - in either order, 1..85 conditions per list, repeated arguments, the same syscall in several groups; the four tables and the x32 table, whose numbers carry a mask - events then also use the numbers without the mask), compiled by the implementation and the extracted model (instruction-exact comparison); every accepted program run on events aimed at each list (satisfying / nearly satisfying every condition) and on events whose argument words equal other entries' syscall numbers and operands, against the extracted decide; non-trivial = accepted policy with conditional entries and events evaluated",
                       replay=replay, npol=(400, 4000), nev=(50, 100), gen=gen,
                       arches=PolicyGen.TABLE_ARCHES * 2 + ["X32"])
